@@ -165,7 +165,7 @@ def decLeaf (l : Leaf) (bs : Bytes) : Except Err (Val × Bytes) :=
       | .ok (n, r) => .ok (.nat n, r)
       | .error x => .error x
   | .bool k => match decInt k .le bs with
-      | .ok (n, r) => if n ≤ 1 then .ok (.nat n, r) else .error (.boolValue n)
+      | .ok (n, r) => .ok (.nat (if n = 0 then 0 else 1), r)      -- "0 means false and all other values mean true"
       | .error x => .error x
   | .enumT k e vals => match decInt k e bs with
       | .ok (n, r) => if vals.contains n then .ok (.nat n, r) else .error (.enumValue n)
